@@ -134,13 +134,26 @@ Qed.
 End Read.
 
 (* ---------- transpose: same data, transposed engine (band widths exchanged) ---------- *)
-Theorem transpose_dense {T} (zero : T) e L U (data : Z -> T) off i j :
+Theorem transpose_dense {T} (zero : T) e L U (data : Z -> T) off i j : band_ok e L U ->
   let (L', U') := if transpose_swaps_LU e then (U, L) else (L, U) in
-  dense zero (transpose_engine e) L' U' data off i j = dense zero e L U data off j i.
+  dense zero (transpose_engine e L U) L' U' data off i j = dense zero e L U data off j i.
 Proof.
-  destruct e; cbn [transpose_swaps_LU transpose_engine]; unfold dense; cbn [stored index];
+  intros Hb.
+  destruct e; cbn [transpose_swaps_LU transpose_engine band_ok] in *;
+    try (destruct (L + U =? 0) eqn:E0); unfold dense; cbn [stored index];
     repeat match goal with |- context[if ?c then _ else _] => destruct c eqn:? end; b2p;
     try reflexivity; try (f_equal; nia); try (exfalso; nia); try (assert (i = j) by lia; subst; reflexivity).
+Qed.
+
+(* the engine T() returns can be traversed whenever the original can: for a matrix that owns its data the offset is
+   pack_offset, and the only engine with pack_offset 0 (the diagonal matrix) keeps the row-major engine.
+   Before the repair of DiagMatrix::T() this was false (BandR 0 0 -> BandC with offset 0) *)
+Theorem transpose_read_ok e L U dim off : band_ok e L U -> 1 <= dim ->
+  off = pack_offset e L U dim \/ (read_ok e off /\ 1 <= off) -> read_ok (transpose_engine e L U) off.
+Proof.
+  intros Hb Hd [->|[Hr Ho]];
+    destruct e; cbn [transpose_engine band_ok pack_offset read_ok] in *;
+    try (destruct (L + U =? 0) eqn:E; cbn [read_ok]; b2p); try exact I; try lia.
 Qed.
 
 (* ---------- diag_vector(k): element t of the returned vector is dense(t, t+k) / dense(t-k, t) ---------- *)
